@@ -70,7 +70,8 @@ void parallel_for_staticImpl(
     ssize_t maxThreads,
     bool wait,
     bool reuseExistingState,
-    uint32_t granularity = 1) {
+    uint32_t granularity = 1,
+    const IntegerT* lastChunkEnd = nullptr) {
   using size_type = typename ChunkedRange<IntegerT>::size_type;
 
   size_type numThreads = std::min<size_type>(taskSet.numPoolThreads() + 1, maxThreads);
@@ -103,7 +104,8 @@ void parallel_for_staticImpl(
       smallChunk,
       perfectlyChunked ? numThreads : static_cast<size_type>(chunking.transitionTaskIndex),
       range.start,
-      range.end};
+      // The last chunk may be asked to run through a granularity tail beyond range.end.
+      lastChunkEnd ? *lastChunkEnd : range.end};
 
   // Determine which chunk the calling thread should take for L2 locality.
   // If the caller is a pool thread with a ring, it takes the chunk matching
